@@ -19,7 +19,7 @@ RULE = (
     'non-trivial = the step ran and >=1 Taylor coefficient was compared; distinct by parameters'
 )
 ASSUMPTIONS = [
-    'N=64 points on |z|=0.4 (SDC; 40x40 on 0.25 for IMEX) / 0.25 (RK), the circle shrunk to half the distance of the nearest pole 1/eig(QDelta); aliasing is gated a posteriori: a k whose mid-band Fourier coefficients exceed 1e-8 is counted as unresolved, not judged (geometric decay of the coefficients of a rational function assumed); coefficient tolerance 1e-9/r^n absolute (FFT round-off amplified by r^-n)',
+    'N=64 points on |z|=0.4 (SDC; 40x40 on 0.25 for IMEX) / 0.25 (RK), the circle shrunk to half the distance of the nearest pole 1/eig(QDelta); aliasing is gated a posteriori: a k whose mid-band Fourier coefficients exceed 1e-8 is counted as unresolved, not judged (geometric decay of the coefficients of a rational function assumed); coefficient tolerance 1e-9/r^n absolute for SDC (FFT round-off amplified by r^-n), 1e-12/r^n for the one-sweep Runge-Kutta step functions and their embedded differences (observed floor 1e-16/r^n)',
     'documented RK orders are taken from the repository\'s own test table (expected local order minus one), part of the trusted base',
     'QDelta names the sweeper rejects for a node set are observed and listed, not failed',
 ]
@@ -217,6 +217,21 @@ def run_sdc(case, r):
                 for n in range(ordk + 1):
                     tol = (1e-9 + roundoff) / rad**n
                     r.check(abs(c[n] - 1.0 / factorial(n)) <= tol, 'sdc-order-min-k-p', f'{r.key} coll_update={cu} k={k}: Taylor coefficient {n} of the amplification factor is {c[n]:.8g}, exp has {1.0 / factorial(n):.8g} (order min(k,p)={ordk}, p={p})', k=k)
+                if k == min(p, 2):
+                    # the same controller and sweeper used for another step with a different step size
+                    Lv = ctrl.MS[0].levels[0]
+                    Lv.params.dt = 0.6 * dt
+                    u0_ = Lv.prob.u_init
+                    u0_[:] = 1.0
+                    try:
+                        ue_, _ = ctrl.run(u0_, 0.0, 0.6 * dt)
+                        c2_ = taylor(np.asarray(ue_).copy(), 0.6 * z, ordk)
+                        for n in range(ordk + 1):
+                            tol = (1e-9 + roundoff) / (0.6 * rad) ** n
+                            r.check(abs(c2_[n] - 1.0 / factorial(n)) <= tol, 'sdc-order-min-k-p', f'{r.key} coll_update={cu} k={k}: on a second step with dt scaled by 0.6 Taylor coefficient {n} is {c2_[n]:.8g}, exp has {1.0 / factorial(n):.8g}', k=k)
+                        r.count('sdc_steps_with_changed_dt')
+                    except Exception as e:  # noqa
+                        r.check(False, 'no-exception', f'{r.key}: second run with a changed step size raised {type(e).__name__}: {e}')
             r.nontrivial = True
         # converged limit == collocation stability function (single z-circle, implicit/explicit roles only cheap enough)
         if role != 'imex':
@@ -256,57 +271,75 @@ def run_rk(case, r):
     dt = 0.5
     order = RK_ORDER.get(name)
     nmax = 8
-    if imex:
-        N = 24
-        rad = 0.2
-        zz = rad * np.exp(2j * np.pi * np.arange(N) / N)
-        ZI, ZE = np.meshgrid(zz, zz, indexing='ij')
-        R, ctrl = one_step(cls, {}, None, dt, 1, -1.0, imex_lams=((ZI / dt).reshape(-1), (ZE / dt).reshape(-1)))
-        C = np.fft.fft2(R.reshape(N, N)) / (N * N)
 
-        def coef(a, b, CC=C):
-            return CC[a, b] / rad ** (a + b)
-
-        measured = 0
-        for tot in range(0, nmax):
-            if all(abs(coef(a, tot - a) - comb(tot, a) / factorial(tot)) <= 1e-9 / rad**tot for a in range(tot + 1)):
-                measured = tot
-            else:
-                break
-        sec = None
-        if cls.is_embedded():
-            S2 = np.asarray(ctrl.MS[0].levels[0].sweep.u_secondary).copy()
-            C2 = np.fft.fft2((R - S2).reshape(N, N)) / (N * N)
-            low = 0
+    def measure(R, S2, rad, N):
+        """(leading order through which R agrees with exp, order of the first non-zero coefficient of R - S2)"""
+        if imex:
+            C = np.fft.fft2(R.reshape(N, N)) / (N * N)
+            measured = 0
             for tot in range(0, nmax):
-                if all(abs(C2[a, tot - a] / rad**tot) <= 1e-9 / rad**tot for a in range(tot + 1)):
-                    low = tot + 1
+                if all(abs(C[a, tot - a] / rad**tot - comb(tot, a) / factorial(tot)) <= 1e-12 / rad**tot for a in range(tot + 1)):
+                    measured = tot
                 else:
                     break
-            sec = low
-    else:
-        N = 64
-        rad = 0.25
-        z = rad * np.exp(2j * np.pi * np.arange(N) / N)
-        R, ctrl = one_step(cls, {}, z / dt, dt, 1, -1.0)
-        c = taylor(R, z, nmax)
+            sec = None
+            if S2 is not None:
+                C2 = np.fft.fft2((R - S2).reshape(N, N)) / (N * N)
+                low = 0
+                for tot in range(0, nmax):
+                    if all(abs(C2[a, tot - a] / rad**tot) <= 1e-12 / rad**tot for a in range(tot + 1)):
+                        low = tot + 1
+                    else:
+                        break
+                sec = low
+            return measured, sec
+        zc = rad * np.exp(2j * np.pi * np.arange(N) / N)
+        c = taylor(R, zc, nmax)
         measured = 0
         for n in range(nmax + 1):
-            if abs(c[n] - 1.0 / factorial(n)) <= 1e-9 / rad**n:
+            if abs(c[n] - 1.0 / factorial(n)) <= 1e-12 / rad**n:
                 measured = n
             else:
                 break
         sec = None
-        if cls.is_embedded():
-            S2 = np.asarray(ctrl.MS[0].levels[0].sweep.u_secondary).copy()
-            c2 = taylor(R - S2, z, nmax)
+        if S2 is not None:
+            c2 = taylor(R - S2, zc, nmax)
             low = 0
             for n in range(nmax + 1):
-                if abs(c2[n]) <= 1e-9 / rad**n:
+                if abs(c2[n]) <= 1e-12 / rad**n:
                     low = n + 1
                 else:
                     break
             sec = low
+        return measured, sec
+
+    if imex:
+        N, rad = 24, 0.2
+        zz = rad * np.exp(2j * np.pi * np.arange(N) / N)
+        ZI, ZE = np.meshgrid(zz, zz, indexing='ij')
+        R, ctrl = one_step(cls, {}, None, dt, 1, -1.0, imex_lams=((ZI / dt).reshape(-1), (ZE / dt).reshape(-1)))
+    else:
+        N, rad = 64, 0.25
+        z = rad * np.exp(2j * np.pi * np.arange(N) / N)
+        R, ctrl = one_step(cls, {}, z / dt, dt, 1, -1.0)
+    S2 = np.asarray(ctrl.MS[0].levels[0].sweep.u_secondary).copy() if cls.is_embedded() else None
+    measured, sec = measure(R, S2, rad, N)
+    # the same sweeper object used again with other step sizes (what a step-size controller does): the step function of
+    # every later step must be that of ITS dt (z scales with dt2/dt, so the samples lie on a circle of radius rad*dt2/dt)
+    Lv = ctrl.MS[0].levels[0]
+    for fac in (0.6, 1.5, 0.6):
+        dt2 = dt * fac
+        Lv.params.dt = dt2
+        u0 = Lv.prob.u_init
+        u0[:] = 1.0
+        uend, _ = ctrl.run(u0, 0.0, dt2)
+        R2 = np.asarray(uend).copy()
+        S22 = np.asarray(Lv.sweep.u_secondary).copy() if cls.is_embedded() else None
+        m2, s2 = measure(R2, S22, rad * fac, N)
+        r.check(m2 >= min(measured, order if order is not None else measured), 'rk-order', f'{name}: on a later step with dt changed by the factor {fac} the amplification factor agrees with exp only through order {m2} (first step: {measured}, documented {order})')
+        if cls.is_embedded():
+            r.check(s2 >= min(sec, cls.get_update_order()), 'rk-embedded-difference-order', f'{name}: on a later step with dt changed by the factor {fac} primary - secondary starts at order {s2} (first step: {sec})')
+        r.count('rk_steps_with_changed_dt')
     if order is not None:
         r.check(measured >= order, 'rk-order', f'{name}: amplification factor agrees with exp through order {measured}, documented order {order}')
     else:
